@@ -201,15 +201,28 @@ def obligations_for(prop, gen, unitcfg, mods):
                 obs.append('termination:%s::%s' % (f.module, f.path))
     return obs
 
-def write_replay(prop, f, res, idx):
+def write_replay(prop, f, res, idx, sr=None):
     d = os.path.join(REPLAYS, prop)
     os.makedirs(d, exist_ok=True)
     ts = time.strftime('%Y%m%dT%H%M%S')
     path = os.path.join(d, '%s_%02d.json' % (ts, idx))
+    extra = {}
+    if sr:
+        extra['replay_search'] = {k: v for k, v in sr.items() if k != 'lib_rs'}
+        if sr.get('status') == 'replayed-fails':
+            pd = os.path.join(d, '%s_%02d_program' % (ts, idx))
+            os.makedirs(os.path.join(pd, 'src', 'bin'), exist_ok=True)
+            open(os.path.join(pd, 'src', 'lib.rs'), 'w').write(sr['lib_rs'])
+            open(os.path.join(pd, 'src', 'bin', 'replay.rs'), 'w').write(sr['replay_main'])
+            open(os.path.join(pd, 'Cargo.toml'), 'w').write('[package]\nname = "elf-verif-replay"\nversion = "0.1.0"\nedition = "2021"\n\n[dependencies]\nelf = { path = "%s" }\n\n[workspace]\n' % REPO)
+            extra['replay_program'] = pd
+            extra['how_to_replay'] = 'cd %s && CARGO_TARGET_DIR=$(mktemp -d) cargo run --offline -q --bin replay   (exits 1 and prints REPLAY FAILS while the defect is present)' % pd
     json.dump({'property': prop, 'failed_obligation': f['obligation'], 'kind': f['kind'], 'function': f['fn'], 'module': f['module'],
                'source': f['src'], 'clause': f['clause'], 'verifier_message': f['message'], 'verifier_output': f['rendered'],
-               'checker_cmd': res.get('cmd', ''), 'failing_input': None,
-               'note': 'Verus gives no counterexample; no failing input was found for this obligation. Re-run: ./check %s' % prop},
+               'checker_cmd': res.get('cmd', ''), 'failing_input': (sr or {}).get('inputs') if (sr and sr.get('status') == 'replayed-fails') else None,
+               'note': ('Verus gives no counterexample; a failing input was found by the paired bounded Kani harness and replayed against the real crate.'
+                        if (sr and sr.get('status') == 'replayed-fails') else
+                        'Verus gives no counterexample; no failing input was found for this obligation. Re-run: ./check %s' % prop), **extra},
               open(path, 'w'), indent=1)
     return path
 
@@ -426,10 +439,23 @@ def main():
         print('KNOWN-FINDING: property=%s %s (%s)' % (prop, f['obligation'], k.get('what', '')))
     rc = 0
     replay_paths = []
+    # look for a concrete failing input for (at most) one violation that has a paired Kani harness; time-boxed
+    searched = {}
+    if viol and not os.environ.get('VERIF_NO_REPLAY_SEARCH'):
+        import replay_search
+        for f in viol:
+            h = replay_search.harness_for(f['obligation'])
+            if h:
+                try:
+                    searched[f['obligation']] = dict(replay_search.search(h, timeout=int(os.environ.get('VERIF_REPLAY_TIMEOUT', '400'))), harness=h)
+                except Exception as e:
+                    searched[f['obligation']] = {'status': 'search-error: %s' % e, 'harness': h}
+                break
     for i, f in enumerate(viol):
-        p = write_replay(prop, f, {'cmd': f.get('cmd', '')}, i)
+        sr = searched.get(f['obligation'])
+        p = write_replay(prop, f, {'cmd': f.get('cmd', '')}, i, sr)
         replay_paths.append(p)
-        tail = 'no-failing-input-found'
+        tail = 'no-failing-input-found' if not (sr and sr.get('status') == 'replayed-fails') else 'failing-input-replayed-on-the-real-crate'
         print('VIOLATION property=%s replay=%s obligation=%s function=%s %s %s' % (
             prop, p, f['obligation'], f['fn'], f['src'] or '', tail))
         rc = 1
